@@ -272,3 +272,29 @@ func c10filters(c *Ctx) {
 		r.Check(ok, "EQUAL", fkey(fn)+"/set-equality", c.Pos(fn.Pos()), "equal means identical text or Equal parsed sets", "two different CPU sets can be called equal ("+why+"): the write of the new set is skipped and the cgroup keeps CPUs that now belong to somebody else")
 	}
 }
+
+// c10cacheMode: the cpuset files are always written through the executor's cache.
+func c10cacheMode(c *Ctx) {
+	r := c.R
+	r.Decides("every batch write of the BE cpuset files goes through the executor with caching on: a write that bypasses the cache (e.g. the transient loose set) leaves the cache remembering the previous final value, and the next cached write of that same value is skipped as unchanged - the cgroups keep the loose set")
+	r.Rule("CACHE(one mode per file): in package cpusuppress every call of ResourceUpdateExecutor.UpdateBatch passes the constant true as its cacheable argument (on every path, also through in-package wrappers after inlining)")
+	n := 0
+	for _, fn := range c.PkgFuncs(suppressPkg) {
+		nIn := 0
+		for _, cl := range an.Calls(fn, false) {
+			if !cl.Common().IsInvoke() || cl.Common().Method.Name() != "UpdateBatch" {
+				continue
+			}
+			n++
+			nIn++
+			ok := true
+			for _, s := range cellSources(cl.Common().Args[0]) {
+				if !isTrueConst(s) {
+					ok = false
+				}
+			}
+			r.Check(ok, "CACHE", sprintf("%s/UpdateBatch#%d", fkey(fn), nIn), c.InstrPos(cl), "cacheable=true", "a batch of cpuset writes bypasses the executor's cache (cacheable is not the constant true): the cache keeps an older value and a later cached write of that value is skipped, leaving the cgroups on the transient set")
+		}
+	}
+	r.Floor("CACHE", "UpdateBatch calls in cpusuppress", n, 1)
+}
